@@ -452,6 +452,15 @@ func TestProxyMapOverPolicyReloads(t *testing.T) {
 			}
 			return eps
 		}), 2, 4).Draw(t, "reloads")
+		// one case in four: an endpoint is dropped, declared again within 30 s (its un-registration is still
+		// pending), and then the proxy refuses a reload that does not contain it - the engine stays on the
+		// configuration that has the endpoint, and the pending un-registration runs
+		refusedAfterReadd := len(steps[0]) >= 2 && rapid.IntRange(0, 3).Draw(t, "refused-after-readd") == 0
+		if refusedAfterReadd {
+			ab := steps[0]
+			other := spec{Name: "ex", URL: "extra.com/x/{id}", Methods: []string{"GET"}}
+			steps = [][]spec{ab, ab[:1], ab, {ab[0], other}}
+		}
 		clk := vclock.New(time.Unix(1_700_000_000, 0))
 		engine.SetClock(clk)
 		// the proxy keeps its maps from case to case, exactly as the gateway keeps its idea of what is registered
@@ -465,6 +474,10 @@ func TestProxyMapOverPolicyReloads(t *testing.T) {
 			}
 		}
 		defer drain()
+		// the check of the configuration in force (set by the last reload that succeeded): a refused reload leaves
+		// the engine on it, so it must stay registered - right after the refusal and when the un-registrations
+		// deferred by earlier reloads have run
+		var inForce func(when string)
 		for si, eps := range steps {
 			if len(eps) == 0 {
 				continue
@@ -502,13 +515,26 @@ func TestProxyMapOverPolicyReloads(t *testing.T) {
 			if rapid.IntRange(0, 2).Draw(t, "fault") == 0 {
 				failAt = rapid.IntRange(1, 9).Draw(t, "fail-at")
 			}
+			if refusedAfterReadd {
+				failAt = 0
+				if si == 3 {
+					failAt = rapid.IntRange(1, 3).Draw(t, "refusal-at")
+				}
+			}
 			proxy.arm(failAt)
 			err = polAcc.UpdatePoliciesData(pd, false)
 			proxy.arm(0)
 			_, _, failed := proxy.state()
 			if err != nil {
 				r.Class("reload refused")
-				drain()
+				if inForce != nil {
+					r.Class("reload refused while an earlier configuration is in force")
+					inForce("right after a reload the proxy refused (the engine stays on the configuration before it)")
+					drain()
+					inForce("after a refused reload, when the un-registrations deferred by earlier reloads have run")
+				} else {
+					drain()
+				}
 				continue
 			}
 			if failed != "" {
@@ -586,8 +612,9 @@ func TestProxyMapOverPolicyReloads(t *testing.T) {
 			if si > 0 {
 				r.NonTrivial(ev.JSON([]any{"policy reloads", steps, si}), func() any { return map[string]any{"kind": "policy reloads", "reloads": steps, "upto": si} })
 			}
+			inForce = check
 			check("right after the reload")
-			if si+1 < len(steps) && rapid.IntRange(0, 2).Draw(t, "next-reload-within-30s") == 0 {
+			if si+1 < len(steps) && (rapid.IntRange(0, 2).Draw(t, "next-reload-within-30s") == 0 || (refusedAfterReadd && si >= 1)) {
 				r.Class("next reload within 30 s")
 				clk.Advance(10 * time.Second)
 				continue
